@@ -22,10 +22,11 @@ import Gp.Lemmas.Effects
        `eager_packet_shareable`).  These are the obligations that break when either defect
        (proposed_fixes/c02-1, c02-2) is present in the tree.
 
-  Helper lemmas and the definitions `Adjacent`, `pseudoStores`, `AllRO` are in Gp/Lemmas/Effects.lean:
+  Helper lemmas and the definitions `Adjacent`, `pseudoStores`, `AllRO`, `LogInBounds` are in Gp/Lemmas/Effects.lean:
     Adjacent c p   := p.buf = c.buf ∧ p.off = c.off + c.len ∧ c.len + p.len ≤ c.cap
     pseudoStores   := the two address fields of the IPv4 layer object (code as found), else []
     AllRO s        := every goroutine of `s` is read-only on the shared heap from its current state
+    LogInBounds l h := every region loaded or stored by `l` lies inside a buffer of `h`
 -/
 namespace Gp.C02.Effects
 open Gp Gp.Effects
@@ -383,6 +384,18 @@ example : ∃ (L : LayerView) (h : Heap), Adjacent L.contents L.payload ∧ L.pa
     ⟨[List.replicate 60 7, List.replicate 48 1], []⟩,
     by decide, by decide, by decide, by decide, by decide,
     by intro n hn; cases hn; exact ⟨by decide, by decide, by decide⟩⟩
+
+/-- The repaired verification stays inside its buffers: every load and store of its log is in
+    bounds of the final heap — the model's total (clipping) read/write functions are never
+    exercised outside a buffer by the central program. -/
+theorem verify_accesses_in_bounds (L : LayerView) (slack : Nat) (h : Heap) (hp : L.payload.len ≠ 0)
+    (hc : L.contents.region.inBounds h) (hb : L.payload.region.inBounds h)
+    (hcb : h.has L.contents.buf) (hpb : h.has L.payload.buf)
+    (hn : ∀ n, L.net = some n →
+      (n.hdrSrc.inBounds h ∧ n.hdrDst.inBounds h ∧ n.src.inBounds h ∧ n.dst.inBounds h) ∧
+      (h.has n.obj ∧ h.has n.src.buf ∧ h.has n.dst.buf)) :
+    LogInBounds ((verify asFixed L slack).log h) ((verify asFixed L slack).final h) :=
+  verify_fixed_inBounds L slack h hp hc hb hcb hpb hn
 
 /-- Every accessor of an eager packet — Layers, Layer, LayerClass, the five special-layer
     getters, Data, Metadata, LayerContents/LayerPayload, flows, String, Dump, LayerString,
